@@ -119,6 +119,7 @@ var LockKinds = []string{
 	"v1-std", "v1-2of3", "v1-1of2-timelock", "v1-unknown-algo", "v1-zero-sig", // v1-style (uc)
 	"pk", "thresh-1of2-opaque", "thresh-2of3-nested", "hash", "above-and-pk", "after-and-pk", "anyone", "thresh-hash-or-pk",
 	"v1-2of70-high-keys", // v1-style too (appended so that the indices of the kinds above stay what stored cases use)
+	"thresh-nested-revealed", // 2 of [inner threshold, key, key nobody holds]: every spend reveals the inner threshold's leaves
 }
 
 // NumV1Kinds is the number of leading entries of LockKinds that are v1-style.
@@ -175,6 +176,12 @@ func MakeLock(s LockSpec) Lock {
 	case "thresh-2of3-nested":
 		inner := types.PolicyThreshold(1, []types.SpendPolicy{types.PolicyPublicKey(k2), types.PolicyAbove(1 << 40)})
 		return Lock{Kind: kind, Policy: types.PolicyThreshold(2, []types.SpendPolicy{types.PolicyPublicKey(k1), inner, types.PolicyPublicKey(k3)}), V2OK: true}
+	case "thresh-nested-revealed":
+		// the third key is held by nobody, so a spend needs the inner threshold (a key and a height lock that has long
+		// passed, both revealed) and the outer key: a satisfied policy two levels deep with nothing opaque on the way
+		inner := types.PolicyThreshold(2, []types.SpendPolicy{types.PolicyPublicKey(k2), types.PolicyAbove(0)})
+		nobody := types.PublicKey(types.HashBytes([]byte{0x4E, byte(s.K1), byte(s.K2)}))
+		return Lock{Kind: kind, Policy: types.PolicyThreshold(2, []types.SpendPolicy{inner, types.PolicyPublicKey(k1), types.PolicyPublicKey(nobody)}), V2OK: true}
 	case "hash":
 		_, h := Preimage(s.K1)
 		return Lock{Kind: kind, Policy: types.PolicyThreshold(2, []types.SpendPolicy{types.PolicyHash(h), types.PolicyPublicKey(k2)}), V2OK: true}
